@@ -154,6 +154,11 @@ double dot3(Real3 const& a, Real3 const& b)
 {
     return a[0] * b[0] + a[1] * b[1] + a[2] * b[2];
 }
+// angle between two (unit) vectors, accurate also for tiny angles
+double angle3(Real3 const& a, Real3 const& b)
+{
+    return std::atan2(norm3(cross3(a, b)), dot3(a, b));
+}
 bool same_dir(Real3 const& a, Real3 const& b)
 {
     return std::isfinite(a[0]) && std::isfinite(b[0]) && dist3(a, b) <= 1e-11;
@@ -504,16 +509,71 @@ struct Recorder
     }
 };
 
-// counts the evaluations of the real stepper (for the a-priori error brackets)
+// One evaluation of the real stepper as the driver saw it
+struct Eval
+{
+    double h;
+    OdeState in, end;
+    double errsq;  // the documented relative truncation-error estimate, squared, in units of epsilon_rel_max^2
+};
+
+// What one FieldDriver::advance call did (recorded by RecDriver)
+struct AdvRec
+{
+    OdeState in, out;
+    double req{0}, s{0};
+    double sumh{0};  // arc length integrated by the chain of stepper evaluations that leads from `in` to `out`
+    bool chain_ok{false};
+    int nchain{0};
+    long nevals{0};
+    double max_errsq{0};  // over the chain
+    // per chain link (oldest first): its step and how many evaluations up to it started from the same
+    // state (the trials of one loop of the driver)
+    std::vector<double> link_h;
+    std::vector<long> link_trials;
+};
+
+bool same_state(OdeState const& a, OdeState const& b)
+{
+    return std::memcmp(a.pos.data(), b.pos.data(), 3 * sizeof(double)) == 0
+           && std::memcmp(a.mom.data(), b.mom.data(), 3 * sizeof(double)) == 0;
+}
+
+struct EvalLog
+{
+    std::vector<Eval> evals;
+    double eps{1e-3};
+    long total{0};
+};
+
+// records the evaluations of the real stepper (the stepper itself is untouched)
 template<class S>
 struct CountStepper
 {
     S s;
-    long* n;
+    EvalLog* log;
     FieldStepperResult operator()(real_type step, OdeState const& state) const
     {
-        ++*n;
-        return s(step, state);
+        ++log->total;
+        FieldStepperResult r = s(step, state);
+        Eval e;
+        e.h = step;
+        e.in = state;
+        e.end = r.end_state;
+        // max(|err_pos|^2 / h^2, |err_mom|^2 / |mom|^2) / epsilon_rel_max^2  (FieldDriver's documented estimate)
+        double ep = 0, em = 0, m2 = 0;
+        for (int i = 0; i < 3; ++i)
+        {
+            ep += r.err_state.pos[i] * r.err_state.pos[i];
+            em += r.err_state.mom[i] * r.err_state.mom[i];
+            m2 += state.mom[i] * state.mom[i];
+        }
+        e.errsq = std::max(ep / (step * step), em / m2) / (log->eps * log->eps);
+        if (!(e.errsq >= 0))
+            e.errsq = 1e300;
+        if (log->evals.size() < 200000)
+            log->evals.push_back(e);
+        return r;
     }
 };
 
@@ -522,10 +582,13 @@ struct RecDriver
 {
     D d;
     Recorder* rec;
+    EvalLog* log;
+    std::vector<AdvRec>* advs;
 
     DriverResult advance(real_type step, OdeState const& state)
     {
         rec->tick();
+        log->evals.clear();
         DriverResult r = d.advance(step, state);
         RawCall c;
         c.kind = "Advance";
@@ -539,6 +602,59 @@ struct RecDriver
         rec->has_chord = true;
         rec->momdir.push_back(unit3(r.state.mom));
         rec->mommag.push_back(norm3(r.state.mom));
+        // the chain of stepper evaluations that leads from the input state to the returned state
+        // (linked by bit-identical states), walked backwards from the returned state
+        AdvRec a;
+        a.in = state;
+        a.out = r.state;
+        a.req = step;
+        a.s = r.step;
+        a.nevals = static_cast<long>(log->evals.size());
+        {
+            auto const& ev = log->evals;
+            std::vector<std::size_t> chain;
+            OdeState want = r.state;
+            std::size_t hi = ev.size();
+            bool ok = false;
+            while (true)
+            {
+                std::size_t j = hi;
+                while (j > 0 && !same_state(ev[j - 1].end, want))
+                    --j;
+                if (j == 0)
+                    break;
+                chain.push_back(j - 1);
+                if (same_state(ev[j - 1].in, state))
+                {
+                    ok = true;
+                    break;
+                }
+                want = ev[j - 1].in;
+                hi = j - 1;
+            }
+            a.chain_ok = ok;
+            if (ok)
+            {
+                // forward sum, like FieldDriver::accurate_advance accumulates its curve length
+                for (auto it = chain.rbegin(); it != chain.rend(); ++it)
+                {
+                    a.sumh += ev[*it].h;
+                    a.max_errsq = std::max(a.max_errsq, ev[*it].errsq);
+                }
+                a.nchain = static_cast<int>(chain.size());
+                for (auto it = chain.rbegin(); it != chain.rend(); ++it)
+                {
+                    long trials = 0;
+                    for (std::size_t j = 0; j <= *it; ++j)
+                        if (same_state(ev[j].in, ev[*it].in))
+                            ++trials;
+                    a.link_h.push_back(ev[*it].h);
+                    a.link_trials.push_back(trials);
+                }
+            }
+        }
+        if (advs->size() < 100000)
+            advs->push_back(a);
         return r;
     }
     short int max_substeps() const { return d.max_substeps(); }
@@ -738,6 +854,33 @@ struct Helix
     }
 };
 
+bool uniform_field(Sample const& s)
+{
+    return s.field.type != 2;
+}
+
+// ---- TOLERANCE TABLE of the numeric oracles (trusted base).  eps = epsilon_rel_max * max(1, the largest
+// truncation-error estimate, in units of epsilon_rel_max, among the stepper evaluations the driver
+// actually USED): what the driver's own error control claims for the state it returned.  The factors
+// are 10 x the largest normalised residual measured on the unchanged tree (160 000 seeded calls, Dormand-
+// Prince / RK4, uniform fields, epsilon_rel_max 1e-10..1e-3, max_nsteps 1..100, energies 1 eV..10 GeV):
+//   one advance call (state returned vs analytic helix at the RETURNED step s, K = curvature):
+//     position   <= 350 eps s             measured max  34.7 eps s           (DP; RK4 12.6)
+//     direction  <= 400 eps (1 + |K| s)   measured max  41 eps (1 + |K| s)   (DP; RK4 0.43)
+//     |p|        <= 1600 eps              measured max  162 eps              (DP; RK4 0.87)
+//   one propagation call (n accepted-or-tried advance calls, distance d):
+//     end point  <= 260 eps d n + geometric tolerance   measured max 25.8 eps d n   (DP; RK4 0.38)
+//     direction  <= 320 eps (1 + |K| d) n + |K| geometric tolerance   measured max 31.6 (DP; RK4 0.42)
+//     |p| drift  <= 3500 eps n            measured max  342 eps n            (DP; RK4 0.87)
+//   geometric tolerance = 2 delta_intersection * arc/chord + 2 minimum_step + bump_distance
+//   rounding floors: 1e-13 * max(1,|pos|) * (evaluations + |K| s) in position, 1e-13 * (..) in direction
+constexpr double TOL_DRV_POS = 350;
+constexpr double TOL_DRV_DIR = 400;
+constexpr double TOL_DRV_MAG = 1600;
+constexpr double TOL_PROP_POS = 260;
+constexpr double TOL_PROP_DIR = 320;
+constexpr double TOL_PROP_MAG = 3500;
+
 struct RealRunner
 {
     verif::NdjsonWriter& out;
@@ -779,16 +922,18 @@ struct RealRunner
         Real3 bnative{0, 0, 0};
         for (int i = 0; i < 3; ++i)
             bnative[i] = s.field.b_tesla[i] * units::tesla;
-        long nstep = 0;
+        EvalLog evlog;
+        evlog.eps = s.opts.epsilon_rel_max;
+        std::vector<AdvRec> advs;
         auto run = [&](auto&& real_stepper) {
             using RealStepperT = std::decay_t<decltype(real_stepper)>;
             using StepperT = CountStepper<RealStepperT>;
             using DriverT = FieldDriver<StepperT>;
-            StepperT stepper{std::forward<decltype(real_stepper)>(real_stepper), &nstep};
+            StepperT stepper{std::forward<decltype(real_stepper)>(real_stepper), &evlog};
             // THE CODE UNDER TEST: the real propagator over the real driver and the real
             // ORANGE track view, seen through call recorders
             FieldPropagator<RecDriver<DriverT>, RecGeo> propagate(
-                RecDriver<DriverT>{DriverT{s.opts, std::move(stepper)}, &rec},
+                RecDriver<DriverT>{DriverT{s.opts, std::move(stepper)}, &rec, &evlog, &advs},
                 particle,
                 RecGeo{&geo, &rec});
             result = propagate(s.step);
@@ -834,6 +979,7 @@ struct RealRunner
             exc = clean(ex.what());
         }
 
+        long const nstep = evlog.total;
         json r = {{"e", "Real"}, {"id", ++id}};
         r["protocol"] = protocol;
         std::ostringstream in;
@@ -843,7 +989,8 @@ struct RealRunner
            << "]T stepper=" << s.stepper << " step=" << s.step << " pos=[" << pos0[0] << "," << pos0[1] << ","
            << pos0[2] << "] dir=[" << dir0[0] << "," << dir0[1] << "," << dir0[2] << "] start=" << start_kind
            << " opts(minstep=" << s.opts.minimum_step << ",dchord=" << s.opts.delta_chord
-           << ",dint=" << s.opts.delta_intersection << ",maxsub=" << s.opts.max_substeps << ") " << s.tag;
+           << ",dint=" << s.opts.delta_intersection << ",maxsub=" << s.opts.max_substeps
+           << ",epsrel=" << s.opts.epsilon_rel_max << ",maxnsteps=" << s.opts.max_nsteps << ") " << s.tag;
         r["in"] = in.str();
         r["start"] = start_kind;
         r["maxsub"] = static_cast<int>(s.opts.max_substeps);
@@ -942,16 +1089,21 @@ struct RealRunner
         double pdrift = 0;
         for (double m : rec.mommag)
             pdrift = std::max(pdrift, std::fabs(m - p0) / p0);
-        // every accepted integration step may be off by epsilon_rel_max (relative): a-priori bound
-        // (the truncation-error ESTIMATE is bounded by epsilon_rel_max, not the error itself: one
-        // order of magnitude of slack, part of the trusted base)
-        double const eps_n = 10 * s.opts.epsilon_rel_max * static_cast<double>(std::max<long>(1, nstep));
-        double const pdrift_tol = s.stepper == 2 ? 1e-9 : std::max(1e-9, eps_n);
+        // eps: what the driver's own error control claims for the states it returned in this call
+        // (see the tolerance table above)
+        double eps_pre = s.stepper == 2 ? 1e-9 : s.opts.epsilon_rel_max;
+        if (s.stepper != 2)
+            for (auto const& a : advs)
+                if (a.chain_ok)
+                    eps_pre = std::max(eps_pre, s.opts.epsilon_rel_max * std::sqrt(std::max(1.0, a.max_errsq)));
+        double const ncalls_adv = static_cast<double>(std::max<std::size_t>(1, advs.size()));
+        double const pdrift_tol = TOL_PROP_MAG * eps_pre * ncalls_adv + 1e-12;
 
         // ORACLE-DECIDED: analytic helix in a uniform field (closed form above)
         bool const uniform = s.field.type != 2;
         double hres = 0, htol = 0, ares = 0, atol = 0;
         bool helix_on = false;
+        double geomtol = 0, kd = 0;
         if (uniform)
         {
             double bmag = norm3(s.field.b_tesla);
@@ -967,20 +1119,112 @@ struct RealRunner
                 h.eval(result.distance, xe, ue);
                 helix_on = true;
                 hres = dist3(pos1, xe);
-                // bracket (a-priori, from the CONFIGURED tolerances): every one of the n stepper
-                // evaluations may err by epsilon_rel_max relative to its step in position and
-                // relative to |p| in momentum; a momentum error made at path length s displaces
-                // the end point by at most (error) * (distance - s) along the field and changes the
-                // phase by at most (error) * |K| * (distance - s)  =>  position <= eps*dist*(1+2n),
-                // direction <= eps*n*(1+|K| dist); plus the intersection tolerance at the end point
-                // (scaled by arc/chord), the minimum step, the bump and rounding of the position.
-                // The exact helix stepper has no truncation error (its own tolerance 1e-10).
-                double eps_eff = s.stepper == 2 ? 1e-9 : eps_n;
+                // brackets: tolerance table above
                 double scale = std::max({1.0, norm3(pos0), norm3(pos1)});
-                htol = eps_eff * result.distance * 3 + 2 * dint * last_ratio + 2 * minsub + bump + 1e-9 * scale;
-                ares = std::acos(std::min(1.0, std::max(-1.0, dot3(unit3(dir1), ue))));
-                atol = eps_eff * (1 + std::fabs(h.K) * result.distance)
-                       + std::fabs(h.K) * (2 * dint * last_ratio + 2 * minsub + bump) + 1e-7;
+                double geom = 2 * dint * last_ratio + 2 * minsub + bump;
+                double kdist = std::fabs(h.K) * result.distance;
+                htol = TOL_PROP_POS * eps_pre * result.distance * ncalls_adv + geom
+                       + 1e-13 * scale * (static_cast<double>(nstep) + kdist) + 1e-15;
+                atol = TOL_PROP_DIR * eps_pre * (1 + kdist) * ncalls_adv + std::fabs(h.K) * geom
+                       + 1e-13 * (static_cast<double>(nstep) + kdist) + 1e-15;
+                ares = angle3(unit3(dir1), ue);
+                geomtol = geom;
+                kd = kdist;
+            }
+        }
+
+        // ---------------- DRIVER LEVEL: every recorded FieldDriver::advance call
+        // (a) structural, no tolerance but the code's own soft_equal: the step the driver REPORTS is
+        //     the arc length integrated by the chain of stepper evaluations that produced the state it
+        //     returns ("advance returns the state at the end of the step it reports")
+        // (b) ORACLE-DECIDED, uniform fields: that state lies on the analytic helix through the input
+        //     state at arc length = the reported step (position, direction, |p|)
+        double drv_rel = 0;  // max |s - sum h| / tolerance  (outside the named deviation)
+        double drv_exh = 0;  // max (sum h - s) / s over advances showing the named deviation
+        bool drv_chain = true;
+        double drv_pos = 0, drv_dir = 0, drv_mag = 0;  // max residual / bracket over the advances
+        double m_p1 = 0, m_p2 = 0, m_a1 = 0, m_a2 = 0, m_a3 = 0, m_m1 = 0, m_m2 = 0, m_abs = 0, eps_call = 0, m_a4 = 0;
+        {
+            double bmag = norm3(s.field.b_tesla);
+            Real3 bhat = bmag > 0 ? unit3(s.field.b_tesla) : Real3{0, 0, 1};
+            for (auto const& a : advs)
+            {
+                if (!a.chain_ok)
+                {
+                    drv_chain = false;
+                    continue;
+                }
+                double const rel = (a.sumh - a.s) / a.s;  // > 0: the state is AHEAD of the reported step
+                if (std::getenv("VFIELD_DEBUG") && std::fabs(rel) > 1e-13)
+                {
+                    std::cerr.precision(17);
+                    std::cerr << "ADV id=" << id << " req=" << a.req << " s=" << a.s << " sumh=" << a.sumh
+                              << " nchain=" << a.nchain << " nevals=" << a.nevals << " links:";
+                    for (std::size_t i = 0; i < a.link_h.size(); ++i)
+                        std::cerr << " (" << a.link_h[i] << "," << a.link_trials[i] << ")";
+                    std::cerr << std::endl;
+                }
+                // named deviation (finding F-FIELD-4): a trial loop of the driver (find_next_chord /
+                // one_good_step) ran out of its max_nsteps budget and shrank `step` AFTER its last
+                // evaluation, so the state of that evaluation is returned with a shorter step
+                // (each rescale keeps at least max_stepping_decrease = 0.1 of the evaluated step)
+                double exh_h = 0;
+                for (std::size_t i = 0; i < a.link_h.size(); ++i)
+                    if (a.link_trials[i] >= s.opts.max_nsteps)
+                        exh_h += a.link_h[i];
+                // tolerance of the comparison: the code's own soft_equal (1e-12 relative) plus the
+                // ambiguity of the chain when steps differing by less than an ulp of the position give
+                // bit-identical states
+                double const reltol = 1e-12 * a.s + 1e-14 * std::max(1.0, norm3(a.out.pos)) * std::max(1, a.nchain);
+                bool const exhausted = exh_h > 0
+                                       && (a.sumh - a.s) <= (1 - s.opts.max_stepping_decrease) * exh_h + reltol;
+                if ((a.sumh - a.s) > reltol && exhausted)
+                {
+                    drv_exh = std::max(drv_exh, rel);
+                    continue;  // its state is not at the reported arc length: nothing to compare with the helix
+                }
+                drv_rel = std::max(drv_rel, std::fabs(a.sumh - a.s) / reltol);
+                double eps_k = s.stepper == 2 ? 1e-9
+                                              : s.opts.epsilon_rel_max * std::max(1.0, std::sqrt(a.max_errsq));
+                eps_call = std::max(eps_call, eps_k);
+                double pin = norm3(a.in.mom);
+                double dmag = std::fabs(norm3(a.out.mom) - pin) / pin;
+                double n = std::max(1, a.nchain);
+                m_m1 = std::max(m_m1, dmag / eps_k);
+                m_m2 = std::max(m_m2, dmag / (eps_k * n));
+                drv_mag = std::max(drv_mag, dmag / (TOL_DRV_MAG * eps_k + 1e-13 * n));
+                if (!(uniform_field(s) && bmag > 0))
+                    continue;
+                Helix h;
+                h.x0 = a.in.pos;
+                h.u0 = unit3(a.in.mom);
+                h.b = bhat;
+                h.K = 2.99792458 * (s.positron ? 1.0 : -1.0) * bmag / pin;
+                Real3 xe, ue;
+                h.eval(a.s, xe, ue);
+                double dpos = dist3(a.out.pos, xe);
+                double dang = angle3(unit3(a.out.mom), ue);
+                double ks = std::fabs(h.K) * a.s;
+                double scale = std::max(1.0, norm3(a.out.pos));
+                if (std::getenv("VFIELD_DEBUG2"))
+                {
+                    std::cerr.precision(6);
+                    std::cerr << "ADV2 id=" << id << " s=" << a.s << " n=" << a.nchain << " nev=" << a.nevals
+                              << " eps_k=" << eps_k << " ks=" << ks << " dpos=" << dpos << " dang=" << dang
+                              << " dmag=" << dmag << " |pos|=" << norm3(a.out.pos) << std::endl;
+                }
+                m_p1 = std::max(m_p1, dpos / (eps_k * a.s));
+                m_p2 = std::max(m_p2, dpos / (eps_k * a.s * n));
+                m_a1 = std::max(m_a1, dang / eps_k);
+                m_a2 = std::max(m_a2, dang / (eps_k * n));
+                m_a3 = std::max(m_a3, dang / (eps_k * n * (1 + ks)));
+                m_a4 = std::max(m_a4, dang / (eps_k * (1 + ks)));
+                m_abs = std::max(m_abs, dpos - eps_k * a.s * n);
+                // brackets: see the tolerance table at the top of the real-mode section
+                double floor_pos = 1e-13 * scale * (n + ks) + 1e-15;
+                double floor_dir = 1e-13 * (n + ks) + 1e-15;
+                drv_pos = std::max(drv_pos, dpos / (TOL_DRV_POS * eps_k * a.s + floor_pos));
+                drv_dir = std::max(drv_dir, dang / (TOL_DRV_DIR * eps_k * (1 + ks) + floor_dir));
             }
         }
 
@@ -989,7 +1233,7 @@ struct RealRunner
         auto add = [&](double v) { rk.add(std::isfinite(v) ? v : 1e300); };
         auto R = [&](double v) { return rk(std::isfinite(v) ? v : 1e300); };
         double const steplo = s.step * (1 - 1e-12), stephi = s.step * (1 + 1e-12);
-        for (double v : {ul_last, mgap, mgaptol})
+        for (double v : {ul_last, mgap, mgaptol, drv_rel, 1.0, drv_pos, drv_dir, drv_mag, drv_exh})
             add(v);
         for (double v : {0.0, s.step, steplo, stephi, result.distance, minsub, dint, bump, gap, tolgap, softtol,
                          unit_res, 1e-12, pdrift, pdrift_tol, hres, htol, ares, atol, p0, p1})
@@ -1032,10 +1276,18 @@ struct RealRunner
         r["nacc"] = nacc;
         r["orc"] = {{"unit_res", R(unit_res)}, {"unit_tol", R(1e-12)}, {"pdrift", R(pdrift)},
                     {"pdrift_tol", R(pdrift_tol)}, {"helix", helix_on}, {"hres", R(hres)}, {"htol", R(htol)},
-                    {"ares", R(ares)}, {"atol", R(atol)}};
+                    {"ares", R(ares)}, {"atol", R(atol)},
+                    // driver level: chain facts and residual/bracket ratios against `one`
+                    {"drv_chain", drv_chain}, {"drv_rel", R(drv_rel)}, {"drv_exh", R(drv_exh)},
+                    {"one", R(1.0)}, {"drv_pos", R(drv_pos)}, {"drv_dir", R(drv_dir)}, {"drv_mag", R(drv_mag)}};
         // raw numbers for the human reader / replay (not used by the spec)
         r["raw"] = {{"step", s.step}, {"dist", result.distance}, {"gap", gap}, {"pdrift", pdrift},
-                    {"hres", hres}, {"htol", htol}, {"ares", ares}, {"atol", atol}, {"nadv", nadv}, {"nstep", nstep}};
+                    {"hres", hres}, {"htol", htol}, {"ares", ares}, {"atol", atol}, {"nadv", nadv}, {"nstep", nstep},
+                    {"drv_rel", drv_rel}, {"drv_exh", drv_exh}, {"drv_pos", drv_pos}, {"drv_dir", drv_dir}, {"drv_mag", drv_mag},
+                    {"m_p1", m_p1}, {"m_p2", m_p2}, {"m_a1", m_a1}, {"m_a2", m_a2}, {"m_a3", m_a3}, {"m_a4", m_a4}, {"geomtol", geomtol}, {"kd", kd}, {"pdrift_tol", pdrift_tol},
+                    {"m_m1", m_m1}, {"m_m2", m_m2}, {"m_abs", m_abs}, {"eps_call", eps_call},
+                    {"hnorm", (helix_on && result.distance > 0 && eps_call > 0) ? hres / (eps_call * result.distance) : 0.0},
+                    {"anorm", (helix_on && eps_call > 0) ? ares / eps_call : 0.0}};
         r["stepper"] = s.stepper == 0 ? "dp" : (s.stepper == 1 ? "rk4" : "zhelix");
         r["field"] = s.field.type == 0 ? "uniform" : (s.field.type == 1 ? "uniformz" : "rzmap");
         out(r);
@@ -1233,6 +1485,7 @@ int run_real(std::string const& out_path, int argc, char** argv)
                 s.opts.delta_intersection = o.value("delta_intersection", s.opts.delta_intersection);
                 s.opts.max_substeps = static_cast<short>(o.value("max_substeps", int(s.opts.max_substeps)));
                 s.opts.epsilon_rel_max = o.value("epsilon_rel_max", s.opts.epsilon_rel_max);
+                s.opts.max_nsteps = static_cast<short>(o.value("max_nsteps", int(s.opts.max_nsteps)));
             }
             s.tag = "case:" + j.value("tag", std::string(""));
             try
@@ -1269,6 +1522,29 @@ int run_real(std::string const& out_path, int argc, char** argv)
  "field":[-0.22577030647027949,0.36571352331286833,-0.35195297480732179],"fieldtype":0,"stepper":1,"step":0.097136967629794929,
  "opts":{"minimum_step":2.1604498769836856e-07,"delta_chord":0.054968308343820799,"delta_intersection":2.9731611968176892e-06,
  "max_substeps":3,"epsilon_rel_max":1e-3},"tag":"tangent-reentrant-tunnel"})");
+    }
+    if (directed)
+    {
+        // the driver's integration budget (max_nsteps) runs out inside one advance call:
+        // (a) gyroradius far below every tolerance, many turns per substep, default options
+        run_case(R"({"geo":"two-boxes","pos":[0,0,0],"dir":[0.6,0,0.8],"energy":5e-6,"field":[0,0,1],"fieldtype":1,
+ "stepper":0,"step":0.06,"tag":"budget-tiny-radius-dp"})");
+        run_case(R"({"geo":"two-boxes","pos":[1,-2,3],"dir":[0.36,0.48,0.8],"energy":8e-6,"positron":true,
+ "field":[0.3,-0.2,0.9],"fieldtype":0,"stepper":1,"step":0.06,"tag":"budget-tiny-radius-rk4"})");
+        // (b) small max_nsteps with a tight epsilon_rel_max, gyroradius 1 cm
+        run_case(R"({"geo":"two-boxes","pos":[1,0,0],"dir":[0,1,0],"energy":10.0,"field":[0,0,3.5019461121752274],
+ "fieldtype":1,"stepper":0,"step":0.3,"opts":{"max_nsteps":2,"epsilon_rel_max":1e-9},"tag":"budget-nsteps2-dp"})");
+        run_case(R"({"geo":"two-boxes","pos":[1,0,0],"dir":[0,1,0],"energy":10.0,"field":[0,0,3.5019461121752274],
+ "fieldtype":1,"stepper":1,"step":0.3,"opts":{"max_nsteps":2,"epsilon_rel_max":1e-9},"tag":"budget-nsteps2-rk4"})");
+        // max_nsteps = 1: every trial loop of the driver is exhausted at once (finding F-FIELD-4)
+        run_case(R"({"geo":"three-spheres","pos":[-5.0572459395718434,80.90288836105718,-21.418397292581751],
+ "dir":[0.05629301627660923,-0.13407653585295179,0.98937079947416751],"energy":0.052471778528454603,
+ "field":[-0.21429296121951585,1.5097462963233053,1.6020893631924991],"fieldtype":0,"stepper":0,"step":21.793420329147665,
+ "opts":{"minimum_step":3.9048604058336106e-08,"delta_chord":0.0060196117267676923,"delta_intersection":1.916604356998695e-07,
+ "max_substeps":30,"epsilon_rel_max":2.7887454546778229e-10,"max_nsteps":1},"tag":"budget-nsteps1-rescale"})");
+        run_case(R"({"geo":"two-boxes","pos":[0,0,0],"dir":[0.8,0,0.6],"energy":1.0,"positron":true,
+ "field":[0.2,0.3,-1.5],"fieldtype":0,"stepper":0,"step":2.0,"opts":{"max_nsteps":3,"epsilon_rel_max":1e-8},
+ "tag":"budget-nsteps3-dp"})");
     }
     if (!cases_path.empty())
     {
@@ -1315,8 +1591,11 @@ int run_real(std::string const& out_path, int argc, char** argv)
             s.opts.delta_intersection = s.opts.minimum_step * rng.logu(2.0, 1e3);
             s.opts.delta_chord = rng.logu(2.5e-3, 2.5e-1);
             s.opts.max_substeps = static_cast<short>(std::vector<int>{1, 2, 3, 10, 30, 100}[rng.i(6)]);
-            s.opts.epsilon_rel_max = rng.logu(1e-5, 1e-3);
+            s.opts.epsilon_rel_max = rng.logu(1e-10, 1e-3);
+            s.opts.max_nsteps = static_cast<short>(std::vector<int>{1, 2, 3, 5, 10, 100}[rng.i(6)]);
         }
+        if (rng.i(10) == 0)
+            s.energy = rng.logu(1e-6, 1e-3);  // eV-scale: gyroradius far below every tolerance
         // start point: uniformly in the (clipped) bounding box, must be inside
         Real3 pos;
         for (int i = 0; i < 3; ++i)
